@@ -769,7 +769,7 @@ def run(ctx):
         for fn in sorted(os.listdir(cdir)):
             c = json.load(open(os.path.join(cdir, fn)))
             {'seq': seq_cases, 'conc': conc_corpus, 'builtin': builtin_corpus}[c['kind']].append(c['case'])
-    for _ in range(ctx.budget(2000, 50000)):
+    for _ in range(ctx.budget(2000, 10000)):
         seq_cases.append(gen_seq(rng, big))
     shrunk = 0
     CH = 1000
@@ -815,7 +815,7 @@ def run(ctx):
                     shrunk += 1
                     ops = ddmin(case['ops'], lambda o, case=case: seq_fails(ctx, dict(case, ops=o), errs, tables))
                     small = dict(case, ops=ops)
-                bad = seq_fails(ctx, small, errs, tables) or jd['bad']
+                bad = (seq_fails(ctx, small, errs, tables) if small is not case else None) or jd['bad']
                 res.violations.append({'sig': 'C05:seq:' + bad[1], 'case': {'kind': 'seq', 'case': small},
                                        'what': f'history on a {ps["kind"]} parameter (update_unchanged={ps["uu"]}): operation '
                                                f'{bad[0]} breaks "{bad[1]}": ops={small["ops"]}',
@@ -823,7 +823,7 @@ def run(ctx):
 
     # ---------------- framework drivers that store into the cache themselves ----------------
     bcases = list(builtin_corpus)
-    for _ in range(ctx.budget(60, 1500)):
+    for _ in range(ctx.budget(60, 300)):
         bcases.append(gen_builtin(rng, rng.choice(['sim', 'persistent'])))
     bruns = [impl_builtin(c) for c in bcases]
     answers = ctx.driver.batch([{'p': 'C05', 'k': 'judge_seq', 'init': r['init_x'],
@@ -847,7 +847,7 @@ def run(ctx):
                                            f'"{jd["bad"][1]}" with ops={small["ops"]} (general window {case["gw"]} s)'})
 
     # ---------------- concurrent ----------------
-    n_sched = ctx.budget(300, 10000)
+    n_sched = ctx.budget(300, 2000)
     conc_cases = list(conc_corpus)
     ncases = max(6, n_sched // 25)
     for _ in range(ncases):
